@@ -134,8 +134,15 @@ def cycle_boundary(F, rep, rule):
         raise AnchorMissing("Compile impls that build CompiledItem::Function (found %s)" % sorted(opens_fn))
     # walks that raise the depth
     raising = {}
+    # the walks that can raise the depth: get_net_dependencies(_, flag), and any other function with a bool flag as its last parameter that calls
+    # Dependency::increment_cycle (Block's in-order walk)
+    helpers = ["compiler::ast::get_net_dependencies"]
+    for g in c.fns:
+        if g.kind != "Closure" and g.argc >= 2 and g.locals[g.argc].strip() == "bool" and g.path not in helpers and \
+                any(x.callee().endswith("Dependency::increment_cycle") or x.callee().endswith("Dependency::<'a>::increment_cycle") for b in [g] + F.closures_of(g) for x in b.calls()):
+            helpers.append(g.path)
     for f in c.fns:
-        for cl in f.calls_to("compiler::ast::get_net_dependencies"):
+        for cl in [x for h in helpers for x in f.calls_to(h)]:
             a = cl.args[-1] if cl.args else None
             if isinstance(a, dict) and "const" in a and a["const"].get("int") == "1":
                 raising[f.path] = cl
